@@ -68,6 +68,13 @@ def cases(ctx):
             lines.append(line)
         fail19 = sorted(rng.sample(range(8), rng.choice([0, 1, 2, 3]))) if version.startswith("2") else []
         yield {"version": version, "fail19": fail19, "steps": PRE + [["rx", line + "\n"] for line in lines]}
+    # scale: many nodes with open episodes at once (requests for different nodes are independent)
+    for version in VERSIONS:
+        for n in (5, 17, 40, ctx.pick(120, 250)):
+            for fail19 in ([], [0], [3, 16]):
+                if ctx.mine():
+                    yield {"version": version, "fail19": fail19 if version.startswith("2") else [],
+                           "steps": PRE + histories.wide_unknown_nodes(n)}
     # version unknown / changing: requests follow the protocol in force
     for i in range(ctx.pick(100, 3000) // ctx.shard_count):
         gen = histories.HistoryGen(rng, None)
